@@ -568,7 +568,17 @@ func (fr *frame) innermostLoop(b *ssa.BasicBlock) *LoopInfo {
 	return best
 }
 
+// forceBounded: explore with every loop unrolled N times (counterexample search);
+// obligations found this way are labelled bounded and never counted as proved.
+var forceBounded = 0
+
 func loopUnroll(l *LoopInfo, fc *FuncContract) int {
+	if forceBounded > 0 {
+		if l.parent == nil {
+			return forceBounded
+		}
+		return 0 // nested loops stay cut (invariant / havoc)
+	}
 	if l.contract != nil && l.contract.Unroll > 0 {
 		return l.contract.Unroll
 	}
@@ -619,6 +629,9 @@ func (vc *VC) buildGraph(fr *frame) {
 		for k := 0; k < copies; k++ {
 			get(b, k)
 		}
+		if ul != nil && b == ul.header {
+			get(b, N) // the final evaluation of the loop condition (exit only)
+		}
 	}
 	predIndex := func(from, to *ssa.BasicBlock, nth int) int {
 		c := 0
@@ -638,6 +651,9 @@ func (vc *VC) buildGraph(fr *frame) {
 		if ul != nil {
 			copies = N
 		}
+		if ul != nil && b == ul.header {
+			copies = N + 1
+		}
 		seen := map[*ssa.BasicBlock]int{}
 		for _, s := range b.Succs {
 			nth := seen[s]
@@ -650,14 +666,13 @@ func (vc *VC) buildGraph(fr *frame) {
 				var to *Node
 				e := &Edge{from: from, predIdx: pi}
 				switch {
+				case ul != nil && b == ul.header && k == N && ul.blocks[s] && !(isBack && s == ul.header):
+					// one iteration too many: entering the body from the last header copy
+					to = get(s, N+1)
+					to.unwind = true
 				case isBack && ul != nil && s == ul.header:
-					// unrolled back edge: next copy, or unwind node
-					if k+1 < N {
-						to = get(s, k+1)
-					} else {
-						to = get(s, N)
-						to.unwind = true
-					}
+					// unrolled back edge: next header copy
+					to = get(s, k+1)
 				case isBack:
 					// cut loop back edge
 					// target: header copy in the same unroll context
